@@ -861,6 +861,12 @@ namespace Wntr.Metrics
 open Wntr.Pattern
 
 
+/-- model.py:1632 "Patterns **always** use the global water network model options.time values": whatever is handed to
+`add_pattern` (a list, a Pattern object with or without time options of its own) is evaluated with the MODEL's options -/
+theorem add_pattern_uses_model_time_options :
+    GenShape.addPatternTimeOptions = [("list", "model"), ("objectUnbound", "model"), ("objectBound", "model")] := by
+  decide
+
 theorem patternAt_gen_eq (p : Pat) (step : Int) (interp : Bool) (t : Int) :
     GenShape.patternAt p.mults p.wrap step interp t = p.at step interp t := by
   unfold GenShape.patternAt Pat.at Pat.get
